@@ -1691,6 +1691,15 @@ impl SctpInner {
         let _inbound_streams = buf.get_u16();
         let initial_tsn = buf.get_u32();
 
+        // RFC 4960 §5.2.1/5.2.2: a duplicate of the INIT this association was
+        // (or is being) set up with must not re-seed it. Once established it is
+        // ignored; during setup it is answered with the same tag and initial TSN.
+        let duplicate = self.verification_tag.load(Ordering::SeqCst) != 0
+            && self.remote_verification_tag.load(Ordering::SeqCst) == initiate_tag;
+        if duplicate && *self.state.lock() == SctpState::Connected {
+            return Ok(());
+        }
+
         self.peer_rwnd.store(a_rwnd, Ordering::SeqCst);
         let init_ssthresh = (a_rwnd as usize).max(SSTHRESH_MIN);
         self.ssthresh.store(init_ssthresh, Ordering::SeqCst);
@@ -1700,7 +1709,11 @@ impl SctpInner {
             .store(initial_tsn.wrapping_sub(1), Ordering::SeqCst);
 
         // Generate local tag
-        let local_tag = random_u32();
+        let local_tag = if duplicate {
+            self.verification_tag.load(Ordering::SeqCst)
+        } else {
+            random_u32()
+        };
         #[cfg(rustrtc_verif)]
         let local_tag = crate::verif_hooks::sctp::seed_tag(self.local_port).unwrap_or(local_tag);
         self.verification_tag.store(local_tag, Ordering::SeqCst);
@@ -1718,7 +1731,11 @@ impl SctpInner {
         // Inbound streams
         init_ack_params.put_u16(10);
         // Initial TSN
-        let initial_tsn = random_u32();
+        let initial_tsn = if duplicate {
+            self.next_tsn.load(Ordering::SeqCst)
+        } else {
+            random_u32()
+        };
         #[cfg(rustrtc_verif)]
         let initial_tsn = crate::verif_hooks::sctp::seed_tsn(self.local_port).unwrap_or(initial_tsn);
         self.next_tsn.store(initial_tsn, Ordering::SeqCst);
@@ -1751,6 +1768,10 @@ impl SctpInner {
     }
 
     async fn handle_init_ack(&self, chunk: Bytes) -> Result<()> {
+        // RFC 4960 §5.2.3: discard an INIT ACK received outside COOKIE-WAIT.
+        if !matches!(*self.t1_chunk.lock(), Some((CT_INIT, _, _))) {
+            return Ok(());
+        }
         self.t1_cancel();
 
         let mut buf = chunk;
@@ -1804,6 +1825,10 @@ impl SctpInner {
     }
 
     async fn handle_cookie_ack(&self, _chunk: Bytes) -> Result<()> {
+        // RFC 4960 §5.2.5: discard a COOKIE ACK received outside COOKIE-ECHOED.
+        if !matches!(*self.t1_chunk.lock(), Some((CT_COOKIE_ECHO, _, _))) {
+            return Ok(());
+        }
         self.t1_cancel();
         *self.state.lock() = SctpState::Connected;
         self.advanced_peer_ack_tsn.store(
@@ -2216,6 +2241,12 @@ impl SctpInner {
         // Send COOKIE ACK
         let tag = self.remote_verification_tag.load(Ordering::SeqCst);
         self.send_chunk(CT_COOKIE_ACK, 0, Bytes::new(), tag).await?;
+
+        // RFC 4960 §5.2.4 (D): a retransmitted COOKIE ECHO on an established
+        // association is only re-acknowledged.
+        if *self.state.lock() == SctpState::Connected {
+            return Ok(());
+        }
 
         *self.state.lock() = SctpState::Connected;
         self.advanced_peer_ack_tsn.store(
